@@ -20,6 +20,9 @@ var (
 	HookChoose func(n int, label string) int
 	// HookViolation reports a misuse detected by the shim's monitors.
 	HookViolation func(msg string)
+	// HookObserve records something the running thread observed (what Get
+	// handed it), for state hashing.
+	HookObserve func(what string)
 )
 
 // Mode selects the pool semantics for the current execution.
@@ -113,6 +116,7 @@ func (p *Pool) Get() *ByteBuffer {
 	p.register()
 	point(fmt.Sprintf("pool%d.Get", p.ID))
 	if Mode == Ideal || len(p.free) == 0 {
+		observe("fresh")
 		return &ByteBuffer{serial: nextSerial(), pool: p}
 	}
 	// alternatives: 0 = most recently released buffer (what an uncontended
@@ -123,13 +127,45 @@ func (p *Pool) Get() *ByteBuffer {
 		k = HookChoose(n, fmt.Sprintf("pool%d.Get", p.ID))
 	}
 	if k == n-1 {
+		observe("fresh")
 		return &ByteBuffer{serial: nextSerial(), pool: p}
 	}
 	idx := len(p.free) - 1 - k
 	b := p.free[idx]
 	p.free = append(p.free[:idx], p.free[idx+1:]...)
 	b.released = false
+	observe(b.describe())
 	return b
+}
+
+func observe(what string) {
+	if HookObserve != nil {
+		HookObserve(what)
+	}
+}
+
+// describe summarises a buffer for state hashing: capacity and a hash of
+// everything within capacity (stale bytes included).
+func (b *ByteBuffer) describe() string {
+	h := uint64(1469598103934665603)
+	for _, c := range b.B[:cap(b.B)] {
+		h ^= uint64(c)
+		h *= 1099511628211
+	}
+	return fmt.Sprintf("%d:%x", cap(b.B), h)
+}
+
+// StateKey summarises every pool's free list (order included).
+func StateKey() string {
+	s := ""
+	for _, p := range pools {
+		s += fmt.Sprintf("p%d[", p.ID)
+		for _, b := range p.free {
+			s += b.describe() + ","
+		}
+		s += "]"
+	}
+	return s
 }
 
 // Put releases byte buffer obtained via Get to the pool.
